@@ -1,6 +1,8 @@
 import CV.Proofs.Auth
 import CV.Proofs.AuthLeavesCreds
 import CV.Proofs.Session
+import CV.Proofs.AuthTable
+import CV.Proofs.SessionCookie
 import CV.Model.VHost
 /-
 C20 - Authentication, session binding and gateway trust are sound.
@@ -350,6 +352,165 @@ example :
   ⟨(digest_client_accepted _ (by decide) _ _ _ _ (by decide)).1,
    digest_client_unknown_refused _ (by decide) _ _ _ _ _ (by decide)⟩
 
+/-! ## Every shape of user table, evaluated per call (CV/Model/AuthTable.lean)
+
+`users` may be a dict (mutable), a callable returning a dict, a callable taking the user name, a
+callable returning something else, a callable that raises, or a callable that changes its
+behaviour from call to call; `Table.at k` is what evaluating it yields during call number `k`.
+`runCalls` runs a sequence of `check_auth` / `basic_auth` / `digest_auth` calls (each with its own
+realm / encrypt / table) on ONE request object, threading `request.login`. -/
+
+/-- The dict-only model of the theorems above is the special case of a dict answer. -/
+theorem any_table_extends_dict (pol : Policy) (L : Leaves) (enc : Enc) (realm method : Str)
+    (users : List (Str × Str)) (hdr : Option Str) :
+    checkAuthA pol L enc realm method (.dict users) hdr = checkAuth pol L enc realm method users hdr
+    ∧ basicAuthA pol L enc realm method (.dict users) hdr = basicAuth pol L enc realm method users hdr
+    ∧ digestAuthA pol L realm method (.dict users) hdr = digestAuth pol L realm method users hdr := by
+  refine ⟨checkAuthA_dict .., ?_, ?_⟩
+  · simp only [basicAuthA, basicAuth, checkAuthA_dict]; rfl
+  · simp only [digestAuthA, digestAuth, checkAuthA_dict]; rfl
+
+/-- **The verdict of a call depends only on the table's answer at that call.**  Two runs - other
+    request history, other `request.login`, other earlier calls, other earlier answers of the table,
+    even another table object - agree at a call whenever the configuration of that call (front end,
+    encrypt, realm) and what the table answers DURING that call agree. -/
+theorem auth_call_local (L : Leaves) (method : Str) (hdr : Option Str) (lg₁ lg₂ : Login)
+    (calls₁ calls₂ : List Call) (k₁ k₂ i j : Nat) (c₁ c₂ : Call)
+    (h1 : calls₁[i]? = some c₁) (h2 : calls₂[j]? = some c₂)
+    (hf : c₁.front = c₂.front) (he : c₁.enc = c₂.enc) (hr : c₁.realm = c₂.realm)
+    (ha : c₁.table.at (k₁ + i) = c₂.table.at (k₂ + j)) :
+    ((runCalls Policy.current L method hdr lg₁ k₁ calls₁)[i]?).map (·.1)
+      = ((runCalls Policy.current L method hdr lg₂ k₂ calls₂)[j]?).map (·.1) := by
+  obtain ⟨_, e1⟩ := runCalls_get Policy.current L method hdr calls₁ lg₁ k₁ i c₁ h1
+  obtain ⟨_, e2⟩ := runCalls_get Policy.current L method hdr calls₂ lg₂ k₂ j c₂ h2
+  rw [e1, e2, ha]
+  simp [callObs, hf, he, hr]
+
+/-- **Soundness for every table, at every position of a sequence.**  If call `i` on a request
+    (whatever happened to that request before) grants - `check_auth` truthy, `basic_auth` /
+    `digest_auth` returning None - then the Authorization value carries credentials for a user `u`
+    for whom the table's answer AT CALL `i` holds a password `p` against which they verify, for the
+    realm / encrypt of call `i`; and `request.login` is `u` afterwards. -/
+theorem auth_sound_any_table (L : Leaves) (method : Str) (hdr : Option Str) (lg : Login)
+    (calls : List Call) (i : Nat) (c : Call) (obs : CallObs) (lg' : Login)
+    (hc : calls[i]? = some c)
+    (ho : (runCalls Policy.current L method hdr lg 0 calls)[i]? = some (obs, lg'))
+    (hg : obs.granted = true) :
+    ∃ cred cr u p, hdr = some cred ∧ credsOf L cred = some cr ∧ cr.username = u ∧
+      (c.table.at i).password u = .val (some p) ∧
+      Verifies L.H c.encUsed cr u p c.realm method = true ∧ lg' = .user u := by
+  obtain ⟨lgi, e⟩ := runCalls_get Policy.current L method hdr calls lg 0 i c hc
+  rw [Nat.zero_add] at e
+  rw [e] at ho
+  cases ho
+  obtain ⟨u, hu⟩ := truthyA_ok (callObs_granted hg)
+  obtain ⟨cred, cr, p, h1, h2, h3, h4, h5⟩ := checkAuthA_ok hu
+  refine ⟨cred, cr, u, p, h1, h2, h3, h4, h5, ?_⟩
+  unfold callOut
+  rw [hu]
+  rfl
+
+/-- ... on a single call, for the three front ends (Basic and Digest credentials alike). -/
+theorem auth_sound_any_answer (L : Leaves) (enc : Enc) (realm method : Str) (ans : Ans) (hdr : Option Str)
+    (h : (checkAuthA Policy.current L enc realm method ans hdr).truthy = some true
+       ∨ basicAuthA Policy.current L enc realm method ans hdr = .letThrough) :
+    ∃ cred c u p, hdr = some cred ∧ credsOf L cred = some c ∧ c.username = u ∧
+      ans.password u = .val (some p) ∧ Verifies L.H enc c u p realm method = true := by
+  have ht : (checkAuthA Policy.current L enc realm method ans hdr).truthy = some true := by
+    rcases h with h | h
+    · exact h
+    · unfold basicAuthA at h
+      split at h
+      · cases h
+      · assumption
+      · split at h <;> cases h
+  obtain ⟨u, hu⟩ := truthyA_ok ht
+  obtain ⟨cred, c, p, h1, h2, h3, h4, h5⟩ := checkAuthA_ok hu
+  exact ⟨cred, c, u, p, h1, h2, h3, h4, h5⟩
+
+/-- **Completeness for every table, at every position of a sequence.**  Well-formed credentials
+    that verify against the password the table's answer AT CALL `i` holds for their own user name
+    are accepted by call `i` as that user - whatever the table answered earlier, whatever earlier
+    calls decided, whatever `request.login` was. -/
+theorem auth_complete_any_table (L : Leaves) (method : Str) (hdr : Option Str) (lg : Login)
+    (calls : List Call) (i : Nat) (c : Call) (u : Str)
+    (hc : calls[i]? = some c)
+    (hm : mustAcceptA L c.encUsed c.realm method (c.table.at i) hdr = some u) :
+    ∃ obs, (runCalls Policy.current L method hdr lg 0 calls)[i]? = some (obs, .user u) ∧
+      obs.granted = true ∧ (c.front = .check → obs = .check (.ok u)) := by
+  obtain ⟨lgi, e⟩ := runCalls_get Policy.current L method hdr calls lg 0 i c hc
+  rw [Nat.zero_add] at e
+  have hu : callOut Policy.current L method hdr c (c.table.at i) = .ok u := mustAcceptA_ok hm
+  obtain ⟨g1, g2⟩ := callObs_of_ok hu
+  refine ⟨_, ?_, g1, g2⟩
+  rw [e, hu]
+  rfl
+
+/-- **A table that fails never authenticates.**  If what the table does at call `i` is an error for
+    every user name - it is not a dict, the callable returned a non-dict (ValueError), it raised -
+    call `i` grants nothing, whatever earlier calls (with the table still intact) decided. -/
+theorem table_error_refuses (L : Leaves) (method : Str) (hdr : Option Str) (lg : Login)
+    (calls : List Call) (i : Nat) (c : Call) (obs : CallObs) (lg' : Login)
+    (hc : calls[i]? = some c)
+    (ho : (runCalls Policy.current L method hdr lg 0 calls)[i]? = some (obs, lg'))
+    (he : ∀ u, (c.table.at i).password u = .raised) :
+    obs.granted = false := by
+  cases hg : obs.granted with
+  | false => rfl
+  | true =>
+    obtain ⟨_, _, u, p, _, _, _, h4, _⟩ := auth_sound_any_table L method hdr lg calls i c obs lg' hc ho hg
+    rw [he u] at h4
+    cases h4
+
+/-- the failing shapes: for every call index and user name -/
+theorem table_error_shapes (k : Nat) (u : Str) :
+    (Table.notDict.at k).password u = .raised ∧ (Table.callOther.at k).password u = .raised ∧
+    (Table.callRaises.at k).password u = .raised ∧
+    ((Table.callName fun _ _ => .raises).at k).password u = .raised :=
+  ⟨rfl, rfl, rfl, rfl⟩
+
+/-- The decidable forms the driver evaluates on the implementation's calls (`soundOnA`,
+    `completeOnA`) hold of every decision of the model. -/
+theorem auth_soundOnA (L : Leaves) (enc : Enc) (realm method : Str) (ans : Ans) (hdr : Option Str) :
+    soundOnA L enc realm method ans hdr
+      ((checkAuthA Policy.current L enc realm method ans hdr).truthy == some true) = true := by
+  unfold soundOnA
+  cases ht : (checkAuthA Policy.current L enc realm method ans hdr).truthy == some true
+  · rfl
+  · have ht' : (checkAuthA Policy.current L enc realm method ans hdr).truthy = some true := by
+      simpa using ht
+    obtain ⟨cred, c, u, p, h1, h2, h3, h4, h5⟩ := auth_sound_any_answer L enc realm method ans hdr (.inl ht')
+    subst h1 h3
+    simp [verifiedByA, h2, h4, h5]
+
+theorem auth_completeOnA (L : Leaves) (enc : Enc) (realm method : Str) (ans : Ans) (hdr : Option Str) :
+    completeOnA L enc realm method ans hdr
+      (match checkAuthA Policy.current L enc realm method ans hdr with
+       | .ok u => some u
+       | _ => none) = true := by
+  unfold completeOnA
+  cases hm : mustAcceptA L enc realm method ans hdr with
+  | none => rfl
+  | some u => simp [mustAcceptA_ok hm]
+
+/-- non-vacuity of `auth_sound_any_table` / `auth_complete_any_table` / `table_error_refuses` /
+    `auth_call_local`: one request, three `check_auth` calls with ONE callable table whose answer
+    changes: the password is right at call 0, was changed at call 1, and at call 2 the callable
+    returns a non-dict.  Granted, refused, raised - and the same with a by-name callable. -/
+example :
+    let L : Leaves := ⟨id, fun _ => some [97, 58, 98], fun b => some (b.map (fun x => Char.ofNat x.toNat)), fun _ => none⟩
+    let t : Table := .callAny fun k =>
+      if k = 0 then .dict [("a".toList, "b".toList)] else if k = 1 then .dict [("a".toList, "c".toList)] else .nonDict
+    let g : Table := .callName fun k u => if k = 0 ∧ u = "a".toList then .pw "b".toList else if k = 1 then .absent else .raises
+    let c : Call := ⟨.check, .ident, "R".toList, t⟩
+    let d : Call := ⟨.basic, .ident, "R".toList, g⟩
+    runCalls Policy.current L "GET".toList (some "Basic YTpi".toList) .unset 0 [c, c, c]
+      = [(.check (.ok "a".toList), .user "a".toList), (.check .refused, .no), (.check .raised, .no)]
+    ∧ runCalls Policy.current L "GET".toList (some "Basic YTpi".toList) .unset 0 [d, d, d]
+      = [(.front .letThrough, .user "a".toList), (.front .unauthorized, .no), (.front .raised, .no)]
+    ∧ mustAcceptA L .ident "R".toList "GET".toList (t.at 0) (some "Basic YTpi".toList) = some "a".toList := by
+  decide
+
 /-! ## Session binding -/
 open CV.Session in
 /-- For every history of requests (any cookies, addresses, agents, actions; `W` = sha1
@@ -403,6 +564,99 @@ example :
                ⟨{ a with cookie := some sid }, "u2".toList, .get⟩,
                ⟨⟨"2".toList, "ua".toList, some sid⟩, "u3".toList, .get⟩]).2.map (fun o => o.contents.map (·.val))
       = [[], ["v".toList], []] := by decide
+
+/-! ## How the session id travels: the configured cookie name, Set-Cookie (CV/Model/SessionCookie.lean) -/
+open CV.Session in
+/-- **A session id is only taken from the configured cookie name.**  Two requests from the same
+    address and agent whose cookie jars agree on the CONFIGURED name (both lack it, or both carry
+    the same value under it) are treated alike by `Sessions(name)` - same id, same contents shown,
+    same store afterwards - whatever else the jars hold (e.g. somebody's valid session id under
+    another name, a name differing in case, a longer name). -/
+theorem session_id_only_from_configured_cookie (W : Session.Str → Session.Str) (name : Session.Str)
+    (st : Store) (s t : StepJ)
+    (hip : s.req.ip = t.req.ip) (hag : s.req.agent = t.req.agent) (hu : s.u = t.u) (hact : s.act = t.act)
+    (hc : s.req.jar.lookup name = t.req.jar.lookup name) :
+    (stepJ W name st s).1 = (stepJ W name st t).1 ∧ (stepJ W name st s).2.sid = (stepJ W name st t).2.sid ∧
+    (stepJ W name st s).2.contents = (stepJ W name st t).2.contents := by
+  have e : s.toStep name = t.toStep name := by
+    simp [StepJ.toStep, ReqJ.toReq, hip, hag, hu, hact, hc]
+  simp [stepJ, e]
+
+open CV.Session in
+/-- ... in particular a request without a cookie of the configured name gets a freshly made id,
+    whatever its other cookies say. -/
+theorem session_no_configured_cookie_fresh (W : Session.Str → Session.Str) (name : Session.Str)
+    (st : Store) (s : StepJ) (h : s.req.jar.lookup name = none) :
+    (stepJ W name st s).2.sid = createSession W s.u (s.req.toReq name) := by
+  simp [stepJ, step, StepJ.toStep, chooseSid, ReqJ.toReq, h]
+
+open CV.Session in
+/-- **Set-Cookie.**  The response's jar carries the chosen id under the configured name and leaves
+    every other name as the request sent it (the jar is shared: request cookies are echoed). -/
+theorem session_set_cookie (W : Session.Str → Session.Str) (name : Session.Str) (st : Store) (s : StepJ) :
+    (stepJ W name st s).2.setCookie.lookup name = some (stepJ W name st s).2.sid ∧
+    ∀ n, n ≠ name → (stepJ W name st s).2.setCookie.lookup n = s.req.jar.lookup n :=
+  ⟨lookup_jarSet_self _ _ _, fun n hn => lookup_jarSet_other _ _ _ n hn⟩
+
+open CV.Session in
+/-- **Session binding for every cookie name and every jar.**  `session_binding` holds of histories of
+    requests with arbitrary cookie jars under any configured name: a request is honoured only if it
+    presented the id it ends up with UNDER THE CONFIGURED NAME and the id ends in its own fingerprint;
+    otherwise it gets an id made from its own uuid; and all it is shown was written under that id
+    by a request with the same fingerprint. -/
+theorem session_binding_any_cookie_name (W : Session.Str → Session.Str) (name : Session.Str)
+    (steps : List StepJ) (hu : ∀ s ∈ steps, '/' ∉ s.u) :
+    (runJ W name [] steps).2.length = steps.length ∧
+    ∀ p ∈ steps.zip (runJ W name [] steps).2,
+      ((p.1.req.jar.lookup name = some p.2.sid ∧ afterSlash p.2.sid = some (who W (p.1.req.toReq name))) ∨
+        p.2.sid = createSession W p.1.u (p.1.req.toReq name)) ∧
+      (∀ e ∈ p.2.contents, e.wsid = p.2.sid ∧ e.wfp = who W (p.1.req.toReq name)) ∧
+      p.2.setCookie.lookup name = some p.2.sid := by
+  have hu' : ∀ s ∈ steps.map (StepJ.toStep name), '/' ∉ s.u := by
+    intro s hs
+    obtain ⟨t, ht, rfl⟩ := List.mem_map.mp hs
+    exact hu t ht
+  obtain ⟨hl, hb⟩ := session_binding W (steps.map (StepJ.toStep name)) hu'
+  obtain ⟨_, e2⟩ := runJ_eq W name steps []
+  constructor
+  · have := congrArg List.length e2
+    rw [List.length_map, hl, List.length_map] at this
+    exact this
+  · intro p hp
+    have hm : (p.1.toStep name, p.2.toObs) ∈
+        (steps.map (StepJ.toStep name)).zip (run W [] (steps.map (StepJ.toStep name))).2 := by
+      rw [← e2, List.zip_map]
+      exact List.mem_map_of_mem (f := Prod.map (StepJ.toStep name) ObsJ.toObs) hp
+    have h := hb _ hm
+    refine ⟨h.1, h.2, ?_⟩
+    -- the Set-Cookie clause: every observation of `runJ` is a `stepJ` observation
+    have hs : ∀ (ss : List StepJ) (st : Store) (q : StepJ × ObsJ), q ∈ ss.zip (runJ W name st ss).2 →
+        q.2.setCookie.lookup name = some q.2.sid := by
+      intro ss
+      induction ss with
+      | nil => intro st q hq; simp at hq
+      | cons a as ih =>
+        intro st q hq
+        simp only [runJ, List.zip_cons_cons, List.mem_cons] at hq
+        rcases hq with rfl | hq
+        · exact (session_set_cookie W name st a).1
+        · exact ih _ q hq
+    exact hs steps [] p hp
+
+open CV.Session in
+/-- non-vacuity: configured name `sid`; the owner's id sent under ANOTHER name (and under a name
+    differing in case) is ignored - a fresh id, an empty session - while under `sid` it is honoured;
+    the other cookies are echoed unchanged. -/
+example :
+    let W : Session.Str → Session.Str := fun x => 'h' :: x
+    let a : ReqJ := ⟨"1".toList, "ua".toList, []⟩
+    let id1 := createSession W "u1".toList (a.toReq "sid".toList)
+    let r := runJ W "sid".toList [] [⟨a, "u1".toList, .put "k".toList "v".toList⟩,
+               ⟨{ a with jar := [("circuits".toList, id1), ("SID".toList, id1)] }, "u2".toList, .get⟩,
+               ⟨{ a with jar := [("x".toList, "y".toList), ("sid".toList, id1)] }, "u3".toList, .get⟩]
+    r.2.map (fun o => (o.sid == id1, o.contents.map (·.val))) = [(true, []), (false, []), (true, ["v".toList])]
+    ∧ r.2.map (fun o => o.setCookie.map (·.1)) =
+        [["sid".toList], ["circuits".toList, "SID".toList, "sid".toList], ["x".toList, "sid".toList]] := by decide
 
 /-! ## Gateway trust -/
 open CV.VHost in
